@@ -365,6 +365,9 @@ func nsWalkRules(c *Ctx, prop string) (*report.Result, error) {
 	checkWalkCuts(c, res, r4)
 	checkVisitLibrary(c, res, r4)
 	checkBlobExamined(c, res, r4)
+	if prop == "C16" {
+		checkEveryBlobTranslated(c, res, r4)
+	}
 	{
 		rs := "O12.6"
 		if prop == "C16" {
@@ -395,6 +398,10 @@ func nsWalkRules(c *Ctx, prop string) (*report.Result, error) {
 			siteCount[r.Name()] = n
 		}
 		checkNamespaceMethodGate(c, res, "O12.8", m, siteCount)
+		res.RuleDoc["O12.10"] = "what leaves is what the visitor mapped: after the visitor ran, translateOneDataBlob returns its input blob or the serialization of the very events the visitor walked - never a blob produced earlier (e.g. by the UTF-8 repair)"
+		checkTranslatedBlobProvenance(c, res, "O12.10")
+		res.RuleDoc["O12.11"] = "every blob of a repeated field is looked into: no path through translateDataBlobs' loop goes on to the next element without calling translateOneDataBlob"
+		checkEveryBlobTranslated(c, res, "O12.11")
 		res.RuleDoc["O12.9"] = "a translated blob replaces the original as a whole: after translateOneDataBlob / translateDataBlobs reported a match or a change, no path of visitDataBlobs reaches a return without visit.Assign of the returned blob (same analysis as O17.4) - the re-serialized blob carries its own encoding label, so copying only its bytes into the old blob leaves a JSON-labelled blob holding proto3 bytes, which the receiving cluster cannot decode"
 		checkRepairedBlobWrittenBack(c, res, "O12.9")
 	}
